@@ -47,19 +47,26 @@ def wfGoItems : List E → Bool
   | a :: t => FitsIn opAssign a && wfGo a && wfGoItems t
 end
 
+/-- nodes no rewrite touches: variables, literals, binary operators -/
+def isPlain : E → Bool
+  | var _ => true
+  | lit _ => true
+  | bin _ _ _ => true
+  | _ => false
+
 /-- what the printer guarantees of its output `t` for the input `e` in a context of precedence `p` -/
 structure Inv (p : Prec) (e t : E) : Prop where
   g : gwfA t = true
   lv : FitsIn p e = true → levelOk p t = true
   tg : assignable e = true → isTarget t = true
-  lo : e.isGroup = false → p ≠ 0 → min e.prec 14 ≤ lvl t
+  lo : isPlain e = true → p ≠ 0 → min e.prec 14 ≤ lvl t
 
 /-- the invariant for an operand that fits its position -/
 structure InvF (p : Prec) (e t : E) : Prop where
   g : gwfA t = true
   lv : levelOk p t = true
   tg : assignable e = true → isTarget t = true
-  lo : e.isGroup = false → p ≠ 0 → min e.prec 14 ≤ lvl t
+  lo : isPlain e = true → p ≠ 0 → min e.prec 14 ≤ lvl t
 
 theorem Inv.toF {p : Prec} {e t : E} (i : Inv p e t) (hf : FitsIn p e = true) : InvF p e t :=
   ⟨i.g, i.lv hf, i.tg, i.lo⟩
@@ -112,6 +119,17 @@ theorem chainLvl_cases (x : E) : chainLvl x = 17 ∨ chainLvl x = 19 := by
   | hlit l => right; rfl
   | hgroup x _ => right; rfl
   | _ => left; rfl
+
+theorem memberPrec_eq (x : E) : x.memberPrec = chainLvl x := by
+  have c17 : opCall = 17 := by decide
+  have c19 : opMember = 19 := by decide
+  induction x using E.ind with
+  | hdot x n ih => simpa [E.memberPrec, chainLvl] using ih
+  | hindex x y ih _ => simpa [E.memberPrec, chainLvl] using ih
+  | hvar n => simp [E.memberPrec, chainLvl, c19, lvMember]
+  | hlit l => simp [E.memberPrec, chainLvl, c19, lvMember]
+  | hgroup x _ => simp [E.memberPrec, chainLvl, c19, lvMember]
+  | _ => simp [E.memberPrec, chainLvl, c17, lvCall]
 
 /-- a node whose level is the level of `&&` / `||` is such a node -/
 theorem node_of_level (op : BOp) (ha : op = .land ∨ op = .lor) (t : E) (h : lvl t = opLevel op) : sameOpNode op t = true := by
@@ -270,7 +288,27 @@ theorem binCore_gwf (rec : E → Prec → Option E)
       have hlt : x1.prec < op.left := by
         simp only [FitsIn, h2.1, Bool.false_or, Bool.or_eq_true, decide_eq_true_eq, not_or, Nat.not_le] at hfit
         exact hfit.1
-      have hlo := ix.lo h2.1 (by pomega)
+      have hbor : ∀ o ∈ BOp.all, opLeft o < o.left → opLeft o = 5 ∧ o.left = 6 := by decide
+      have h56 := hbor op (BOp.mem_all op) (by pomega)
+      have hp5 : x1.prec = 5 := by pomega
+      have hplain : isPlain x1 = true := by
+        have c : opUnary = 14 ∧ opUpdate = 15 ∧ opAssign = 1 ∧ opExpr = 0 ∧ opCall = 17 ∧ opMember = 19 ∧ opPrimary = 20 := by decide
+        cases x1 with
+        | var n => rfl
+        | lit l => rfl
+        | bin o a b => rfl
+        | unary o a =>
+          exfalso
+          simp only [E.prec] at hp5
+          have := (t_unary o).2.2.1
+          rw [this] at hp5; split at hp5 <;> pomega
+        | cond a b d => exfalso; simp only [E.prec] at hp5; rw [c.2.2.1] at hp5; pomega
+        | comma l => exfalso; simp only [E.prec] at hp5; rw [c.2.2.2.1] at hp5; pomega
+        | call f a => exfalso; simp only [E.prec] at hp5; rw [c.2.2.2.2.1] at hp5; pomega
+        | dot a n => exfalso; simp only [E.prec, memberPrec_eq] at hp5; have := chainLvl_cases a; pomega
+        | index a b => exfalso; simp only [E.prec, memberPrec_eq] at hp5; have := chainLvl_cases a; pomega
+        | group a => simp [E.isGroup] at h2
+      have hlo := ix.lo hplain (by pomega)
       have h14 : opLeft op ≤ 14 := by
         have : ∀ o ∈ BOp.all, opLeft o ≤ 14 ∨ opLeft o = o.left := by decide
         rcases this op (BOp.mem_all op) with h | h
@@ -444,11 +482,23 @@ theorem assignable_not_undefined (n : String) (h : (n == "undefined") = true) : 
   subst this
   decide
 
+/-- what the grammar theorem needs of a node rewriter: it keeps the input condition, the fit into the context, and
+    leaves plain nodes and assignment targets alone -/
+structure RwOk (rw : E → Prec → Option E) : Prop where
+  wf : ∀ e p r, p ≤ 17 → wfGo e = true → rw e p = some r → wfGo r = true
+  fit : ∀ e p r, p ≤ 17 → wfGo e = true → FitsIn p e = true → rw e p = some r → FitsIn p r = true
+  plain : ∀ e p r, rw e p = some r → (isPlain e = true ∨ assignable e = true) → r = e
+
+theorem idRw_ok : RwOk idRw :=
+  ⟨fun e p r _ hw h => by simp [idRw] at h; subst h; exact hw,
+   fun e p r _ _ hf h => by simp [idRw] at h; subst h; exact hf,
+   fun e p r h _ => by simp [idRw] at h; exact h.symm⟩
+
 /-- one step of the printer keeps the invariant if the recursive calls do -/
-theorem descend_gwf (rec : E → Prec → Option E)
+theorem descend_gwf (rw : E → Prec → Option E) (hok : RwOk rw) (rec : E → Prec → Option E)
     (hrec : ∀ e p t, p ≤ 17 → wfGo e = true → rec e p = some t → Inv p e t)
     (e : E) (p : Prec) (t : E) (hp : p ≤ 17) (hw : wfGo e = true)
-    (h : descend idRw rec e p = some t) : Inv p e t := by
+    (h : descend rw rec e p = some t) : Inv p e t := by
   obtain ⟨c0, c1, c2, c5, c14, c17, c19, c4, c3⟩ := consts
   have hrecF : ∀ e p t, p ≤ 17 → wfGo e = true → FitsIn p e = true → rec e p = some t → InvF p e t :=
     fun e p t hp hw hf h => (hrec e p t hp hw h).toF hf
@@ -474,7 +524,7 @@ theorem descend_gwf (rec : E → Prec → Option E)
     have prim : ∀ l', Inv p (.lit l) (.lit l') := fun l' =>
       ⟨rfl, fun _ => levelOk_of_le (by simp [lvl, lvPrimary]; pomega), fun ha => (by rw [hna] at ha; cases ha),
         fun _ _ => (by simp [lvl, lvPrimary]; pomega)⟩
-    have notn : ∀ k, descend idRw rec (.lit l) p =
+    have notn : ∀ k, descend rw rec (.lit l) p =
         some (if opUnary < p then E.group (.unary .not (.lit (.num k))) else .unary .not (.lit (.num k))) → Inv p (.lit l) t := by
       intro k hk
       rw [hk] at h
@@ -740,29 +790,46 @@ theorem descend_gwf (rec : E → Prec → Option E)
   | group x =>
     simp only [wfGo] at hw
     simp only [descend] at h
-    have hgi : groupInner idRw x = some x := by
-      unfold groupInner idRw; split <;> rfl
-    rw [hgi] at h
-    simp only [] at h
-    split at h
-    · rename_i hdrop
-      have hfx : FitsIn p x = true := by
-        simp only [Bool.or_eq_true, decide_eq_true_eq, Bool.and_eq_true, beq_iff_eq] at hdrop
-        simp only [FitsIn, Bool.or_eq_true, decide_eq_true_eq, Bool.and_eq_true, beq_iff_eq]
-        rcases hdrop with h1 | ⟨h1, h2⟩
-        · left; right; exact h1
-        · right; exact ⟨h2, h1⟩
-      have ix := hrec _ _ _ hp hw h
-      exact ⟨ix.g, fun _ => ix.lv hfx, fun ha => ix.tg (by simpa [assignable, E.inner] using ha), fun hg => by simp [E.isGroup] at hg⟩
-    · cases hx : rec x opExpr with
-      | none => simp [hx] at h
-      | some t' =>
-        simp [hx] at h
-        subst h
-        have ix := hrecF _ _ _ (by rw [c0]; pomega) hw (by simp [FitsIn, c0]) hx
-        exact ⟨by simp [gwfA, ix.g], fun _ => levelOk_of_le (by simp [lvl, lvPrimary]; pomega),
-          fun ha => (by simp only [isTarget]; exact ix.tg (by simpa [assignable, E.inner] using ha)),
-          fun hg => by simp [E.isGroup] at hg⟩
+    -- the conditional directly inside the group is rewritten first (at `OpExpr`)
+    have hgi : ∀ x1, groupInner rw x = some x1 → wfGo x1 = true ∧ (assignable x = true → x1 = x) := by
+      intro x1 hx1
+      unfold groupInner at hx1
+      cases x with
+      | cond c a b =>
+        exact ⟨hok.wf _ _ _ (by rw [c0]; pomega) hw hx1, fun ha => by simp [assignable, E.inner] at ha⟩
+      | _ => simp at hx1; subst hx1; exact ⟨hw, fun _ => rfl⟩
+    cases hx1 : groupInner rw x with
+    | none => simp [hx1] at h
+    | some x1 =>
+      simp only [hx1] at h
+      obtain ⟨hw1, hsame⟩ := hgi x1 hx1
+      split at h
+      · rename_i hdrop
+        have hfx : FitsIn p x1 = true := by
+          simp only [Bool.or_eq_true, decide_eq_true_eq, Bool.and_eq_true, beq_iff_eq] at hdrop
+          simp only [FitsIn, Bool.or_eq_true, decide_eq_true_eq, Bool.and_eq_true, beq_iff_eq]
+          rcases hdrop with h1 | ⟨h1, h2⟩
+          · left; right; exact h1
+          · right; exact ⟨h2, h1⟩
+        have ix := hrec _ _ _ hp hw1 h
+        refine ⟨ix.g, fun _ => ix.lv hfx, fun ha => ?_, fun hg => by simp [isPlain] at hg⟩
+        have hax : assignable x = true := by simpa [assignable, E.inner] using ha
+        have := hsame hax
+        subst this
+        exact ix.tg hax
+      · cases hx : rec x1 opExpr with
+        | none => simp [hx] at h
+        | some t' =>
+          simp [hx] at h
+          subst h
+          have ix := hrecF _ _ _ (by rw [c0]; pomega) hw1 (by simp [FitsIn, c0]) hx
+          refine ⟨by simp [gwfA, ix.g], fun _ => levelOk_of_le (by simp [lvl, lvPrimary]; pomega), fun ha => ?_,
+            fun hg => by simp [isPlain] at hg⟩
+          have hax : assignable x = true := by simpa [assignable, E.inner] using ha
+          have := hsame hax
+          subst this
+          simp only [isTarget]
+          exact ix.tg hax
   | call f args =>
     simp only [wfGo, Bool.and_eq_true] at hw
     obtain ⟨⟨hff, hwf⟩, hwa⟩ := hw
@@ -838,29 +905,32 @@ theorem descend_gwf (rec : E → Prec → Option E)
       exact ⟨by simp [gwfA, g, hlen', hlen], fun hf => (by rw [hp0 hf]; simp [levelOk]),
         fun ha' => by simp [assignable, E.inner] at ha', fun _ _ => (by rw [hprec, c0]; simp)⟩
 
-/-- the printer's output is a derivation tree that fits its context -/
-theorem printT_gwf : ∀ (fuel : Nat) (e : E) (p : Prec) (t : E), p ≤ 17 → wfGo e = true →
-    printT fuel e p = some t → Inv p e t := by
+/-- the output of the traversal with any acceptable node rewriter is a derivation tree that fits its context -/
+theorem minGen_gwf (rw : E → Prec → Option E) (hok : RwOk rw) : ∀ (fuel : Nat) (e : E) (p : Prec) (t : E), p ≤ 17 →
+    wfGo e = true → minGen rw fuel e p = some t → Inv p e t := by
   intro fuel
   induction fuel with
-  | zero => intro e p t _ _ h; simp [printT, minGen] at h
+  | zero => intro e p t _ _ h; simp [minGen] at h
   | succ n ih =>
     intro e p t hp hw h
-    simp only [printT, minGen] at h
-    exact descend_gwf (minGen (fun e _ => some e) n) ih e p t hp hw h
+    simp only [minGen] at h
+    cases hr : rw e p with
+    | none => simp [hr] at h
+    | some e1 =>
+      simp only [hr] at h
+      have i1 := descend_gwf rw hok (minGen rw n) ih e1 p t hp (hok.wf e p e1 hp hw hr) h
+      refine ⟨i1.g, fun hf => i1.lv (hok.fit e p e1 hp hw hf hr), fun ha => ?_, fun hpl hne => ?_⟩
+      · have := hok.plain e p e1 hr (Or.inr ha)
+        subst this; exact i1.tg ha
+      · have := hok.plain e p e1 hr (Or.inl hpl)
+        subst this; exact i1.lo hpl hne
+
+/-- the printer's output is a derivation tree that fits its context -/
+theorem printT_gwf (fuel : Nat) (e : E) (p : Prec) (t : E) (hp : p ≤ 17) (hw : wfGo e = true)
+    (h : printT fuel e p = some t) : Inv p e t :=
+  minGen_gwf idRw idRw_ok fuel e p t hp hw h
 
 /-! ## the parser's trees: every derivation tree of the (strict) grammar has the shape `wfGo` -/
-
-theorem memberPrec_eq (x : E) : x.memberPrec = chainLvl x := by
-  have c17 : opCall = 17 := by decide
-  have c19 : opMember = 19 := by decide
-  induction x using E.ind with
-  | hdot x n ih => simpa [E.memberPrec, chainLvl] using ih
-  | hindex x y ih _ => simpa [E.memberPrec, chainLvl] using ih
-  | hvar n => simp [E.memberPrec, chainLvl, c19, lvMember]
-  | hlit l => simp [E.memberPrec, chainLvl, c19, lvMember]
-  | hgroup x _ => simp [E.memberPrec, chainLvl, c19, lvMember]
-  | _ => simp [E.memberPrec, chainLvl, c17, lvCall]
 
 /-- Go's `exprPrec` of a node that is not a group is the level of its production -/
 theorem prec_eq_lvl (x : E) (h : x.isGroup = false) : x.prec = lvl x := by
